@@ -63,6 +63,10 @@ def reg_policies(rng, req, cred_alg):
                     sup = list(algs) + [x for x in (-36, -259, cred_alg, -8) if x not in algs][: 1 + len(algs) % 3]
                     out.append(("algs-superset", base, dict(base, algs=sup)))
                     out.append(("algs-all", base, dict(base, algs=list(cases.ALL_ALGS))))
+                    # a superset may name identifiers the library has no member for (ES384 = -35, ES256K = -47): the RP's list is
+                    # a list of integers
+                    out.append(("algs-superset-with-unregistered-ids", base, dict(base, algs=list(algs) + [-35, -47])))
+                    out.append(("algs-superset-with-unregistered-ids", base, dict(base, algs=[-47] + list(cases.ALL_ALGS) + [-35])))
                 out.append(("origin-superset", base, dict(base, origin=[req.origin, "https://z.example"])))
                 out.append(("string-as-singleton", base, dict(base, origin=[req.origin])))
     return out
